@@ -27,7 +27,8 @@ class Unrelated(Exception):
     pass
 
 
-CLASSES = {1: Base, 2: Derived, 3: Unrelated, 4: ValueError, 10: Exception}
+CLASSES = {1: Base, 2: Derived, 3: Unrelated, 4: ValueError,
+           5: FileNotFoundError, 6: TimeoutError, 10: Exception}
 
 
 # ------------------------------------------------------------------ values
@@ -186,6 +187,8 @@ class Scenario:
     construct: None | "badlen" | "nopath" | "badjson";
     method: name; leaf: ("endpoint", beh) | ("404",) | ("405",) |
     ("debug",) | ("pre", cls)"""
+    docroot = None      # class-wide sandbox: set by ensure_docroot()
+
     def __init__(self, before=(), after=(), shandlers=None, ehandlers=(),
                  digest=False, construct=None, method="GET",
                  leaf=("endpoint", ("ret", ("str", "ok"))), debug=False):
@@ -220,12 +223,21 @@ class Scenario:
                 "nopath": "(Some EConn)",
                 "badjson": "(Some (EHttp 400))"}[self.construct]
         kind = self.leaf[0]
-        if kind == "endpoint":
+        if kind in ("endpoint", "pattern", "default"):
             leaf = "(LEndpoint %s)" % beh_term(self.leaf[1])
-        elif kind in ("404", "405"):
+        elif kind in ("404", "405", "403"):
             leaf = "(LRaise (EHttp %s))" % kind
-        elif kind == "debug":
+        elif kind in ("debug", "debugroot"):
             leaf = "(LValue (PStr %s))" % slit("<debug>")
+        elif kind == "file":
+            leaf = "(LValue (PResp (mkResp CBase 200 %s %s 12 [%s])))" % (
+                hdrs_term(XPB + [("Accept-Ranges", "bytes"),
+                                 ("Last-Modified", "<date>")]),
+                slit("text/plain"), slit(b"file-content"))
+        elif kind == "dir":
+            leaf = "(LValue (PTuple [PStr %s; PStr %s; PHdrs (Some %s)]))" % (
+                slit("<listing>"), slit("text/html; character=utf-8"),
+                hdrs_term([("Last-Modified", "<date>")]))
         else:
             leaf = "(LPre (EUser %s))" % zlit(self.leaf[1])
         mbit = METHODS.get(self.method, 2)
@@ -242,9 +254,13 @@ class Scenario:
             app.secret_key = "k" * 16
             app.auth_type = "Digest"
 
+        self.seen = seen = []
+
         def mk_before(i, b):
             def hook(req):
                 trace.append(["B", i])
+                seen.append((req.uri_rule, getattr(req.uri_handler,
+                                                   "__name__", None)))
                 return act(b)
             hook.__name__ = "before%d" % i
             return hook
@@ -273,11 +289,27 @@ class Scenario:
         path = "/x"
         kind = self.leaf[0]
         allm = 511
-        if kind == "endpoint":
-            def endpoint(req, _b=self.leaf[1]):
+        if kind in ("file", "dir", "403", "debugroot"):
+            app.document_root = ensure_docroot()
+            app.document_index = kind == "dir"
+        if kind in ("endpoint", "pattern", "default"):
+            def endpoint(req, *args, _b=self.leaf[1]):
                 trace.append(["E"])
                 return act(_b)
-            app.set_route("/x", endpoint, allm)
+            if kind == "endpoint":
+                app.set_route("/x", endpoint, allm)
+            elif kind == "pattern":
+                app.set_route("/p/<name:word>/<n:int>", endpoint, allm)
+                path = "/p/bob/7"
+            else:
+                app.set_default(endpoint, allm)
+                path = "/whatever/else"
+        elif kind == "file":
+            path = "/f.txt"
+        elif kind in ("dir", "403"):
+            path = "/sub"
+        elif kind == "debugroot":
+            path = "/debug-info"
         elif kind == "404":
             path = "/nowhere"
         elif kind == "405":
@@ -311,10 +343,33 @@ class Scenario:
         return ans, trace
 
 
+_DOCROOT = []
+
+
+def ensure_docroot():
+    """sandbox document root shared by the scenarios of one check run"""
+    import atexit
+    import os
+    import shutil
+    import tempfile
+    if not _DOCROOT:
+        top = tempfile.mkdtemp(prefix="disp_", dir="/root/scratch")
+        os.makedirs(os.path.join(top, "sub"))
+        with open(os.path.join(top, "f.txt"), "wb") as fil:
+            fil.write(b"file-content")
+        with open(os.path.join(top, "sub", "g.txt"), "wb") as fil:
+            fil.write(b"g")
+        _DOCROOT.append(top)
+        atexit.register(shutil.rmtree, top, True)
+    return _DOCROOT[0]
+
+
 def canon_body(body):
     if body is None:
         return None
     if body.startswith(b"<!DOCTYPE html>"):
+        if b"<title>Index of" in body:
+            return b"<listing>"
         import re
         m = re.search(rb"<title>(\d{3}) - ", body)
         if m:
@@ -329,7 +384,7 @@ def canon_headers(headers):
     for key, val in headers:
         if key == "Content-Length":
             continue
-        if key == "Date":
+        if key in ("Date", "Last-Modified"):
             val = "<date>"
         out.append([key, val])
     return out
@@ -355,6 +410,8 @@ RESP_POOL = [
     ("base", 304, [("ETag", '"e"')], "text/plain", ""),
     ("base", 200, [("Content-Type", "x/y")], "text/plain", "typed"),
     ("base", 500, None, "text/plain", "custom-500"),
+    ("base", 200, [("content-type", "x/lower")], "text/plain", "lc"),
+    ("base", 200, [("CONTENT-LENGTH", "2"), ("X-U", "1")], "text/plain", "ab"),
     ("nocontent", 204, None),
     ("nocontent", 304, [("ETag", '"n"'), ("Vary", "Accept")]),
     ("nocontent", 202, [("X-N", "1")]),
@@ -371,6 +428,8 @@ VAL_POOL = [
     ("tuple", [("str", "t2"), ("str", "text/plain")]),
     ("tuple", [("str", "t3"), ("str", "text/plain"),
                ("hdrs", [("X-T", "3")])]),
+    ("tuple", [("str", "t5"), ("str", "text/plain"),
+               ("hdrs_list", [("CONTENT-TYPE", "x/upper")])]),
     ("tuple", [("bytes", b"t4"), ("str", "a/b"),
                ("hdrs_list", [("X-T", "4"), ("Set-Cookie", "c=1")]),
                ("int", 202)]),
@@ -410,7 +469,7 @@ def rand_beh(rng, hook=None):
     if roll < 0.82:
         return ("abortresp", rng.choice(RESP_POOL))
     if roll < 0.94:
-        return ("throw", rng.choice([1, 2, 3]))
+        return ("throw", rng.choice([1, 2, 3, 3, 5, 6]))
     return rng.choice([("conn",), ("exit",)])
 
 
@@ -424,14 +483,19 @@ def rand_scenario(rng):
     eh = []
     for cls in rng.sample([1, 2, 3, 10], rng.choice([0, 0, 1, 2, 3])):
         eh.append((cls, {rng.choice([mbit, mbit, 4]): rand_beh(rng)}))
-    leaf_kind = rng.choice(["endpoint"] * 6 + ["404", "405", "debug", "pre"])
-    debug = leaf_kind == "debug"
-    if leaf_kind == "endpoint":
-        leaf = ("endpoint", rand_beh(rng))
+    leaf_kind = rng.choice(["endpoint"] * 5 + ["pattern", "default", "404",
+                                               "405", "debug", "pre", "file",
+                                               "dir", "403", "debugroot"])
+    debug = leaf_kind in ("debug", "debugroot")
+    if leaf_kind in ("endpoint", "pattern", "default"):
+        leaf = (leaf_kind, rand_beh(rng))
     elif leaf_kind == "pre":
         leaf = ("pre", rng.choice([1, 2, 3]))
     else:
         leaf = (leaf_kind,)
+    if leaf_kind in ("file", "dir", "403", "debugroot") and \
+            METHODS.get(method, 2) not in (1, 2):
+        method = "GET"
     construct = rng.choice([None] * 8 + ["badlen", "nopath", "badjson"])
     if construct == "badjson" and method not in ("POST", "PUT", "PATCH"):
         construct = None
